@@ -255,13 +255,26 @@ def apply(s, step, ctx):
                                                                'ElementLineHermite', 'ElementTriP1G')]
         d = pool[step['elem'] % len(pool)]
         e = get_elem(s, d)
-        X = point_sets(kind)[['A', 'B', 'C'][step['pts'] % 3]]
         i = step['i'] % max(1, len(e.doflocs))
+        # one point set, or several one after the other on the SAME instance (sets sharing some coordinate rows, equal shapes)
+        for q in step.get('seq') or [step['pts']]:
+            if q == 3:
+                # the element of a kept basis, evaluated at other points of the same array shape as that basis' quadrature points
+                if not getattr(s, 'bases', None) or np.asarray(s.bases[-1]['obj'].X).ndim != 2:
+                    continue
+                d = s.bases[-1]['elem']
+                e = get_elem(s, d)
+                i = step['i'] % max(1, len(e.doflocs))
+                X = 0.5 * np.asarray(s.bases[-1]['obj'].X) + 0.125
+            else:
+                X = point_sets(kind)[['A', 'B', 'C'][q % 3]]
 
-        def val(el):
-            out = el.lbasis(X.copy(), i)
-            return [np.asarray(o) for o in out[:2]]
-        compare(ctx, 'element_evaluation', attempt(lambda: val(e)), attempt(lambda: val(build_element(d))), dict(sig, elem=key(d)))
+            def val(el):
+                out = el.lbasis(X.copy(), i)
+                return [np.array(o, copy=True) for o in out[:2]]
+            compare(ctx, 'element_evaluation', attempt(lambda: val(e)), attempt(lambda: val(build_element(d))), dict(sig, elem=key(d)))
+            if ctx.failures:
+                break
     elif op in ('assemble', 'interpolate', 'probes'):
         if kind == 'wedge':
             raise Reject()
@@ -306,6 +319,44 @@ def apply(s, step, ctx):
         glob = d['cls'] in ('ElementTriMorley', 'ElementTriArgyris', 'ElementQuadBFS', 'ElementQuad2G', 'ElementLineHermite', 'ElementTriP1G')
         compare(ctx, op + '_result', attempt(lambda: val(m, e)), attempt(lambda: val(rebuild(ent['recipe']), build_element(d))),
                 dict(sig, elem=key(d)), tol=(1e-7 if glob else None))
+        after()
+    elif op in ('keep_basis', 'reuse_basis'):
+        if kind == 'wedge':
+            raise Reject()
+        if op == 'keep_basis':
+            pool = [d_ for d_ in ELEM_POOL[kind] if d_['cls'] not in ('ElementTriArgyris', 'ElementQuadBFS')]
+            d = pool[step['elem'] % len(pool)]
+            e = get_elem(s, d)
+            bkind = ['cell', 'facet'][step['basis'] % 2] if kind != 'line' else 'cell'
+            if m.nelements > 40:
+                raise Reject()
+            b = (CellBasis if bkind == 'cell' else FacetBasis)(m, e, intorder=3)
+            s.bases = getattr(s, 'bases', [])
+            s.bases.append(dict(obj=b, recipe=list(ent['recipe']), elem=d, bkind=bkind))
+            s.bases = s.bases[-3:]
+        else:
+            if not getattr(s, 'bases', None):
+                raise Reject()
+            kb = s.bases[step['basis'] % len(s.bases)]
+            d = kb['elem']
+
+            def val(b):
+                def form(u, v, w):
+                    a = np.asarray(u.value)
+                    bb = np.asarray(v.value)
+                    while a.ndim > 2:
+                        a = a[0]
+                    while bb.ndim > 2:
+                        bb = bb[0]
+                    return a * bb * (1.0 + w.x[0])
+                x = (np.arange(b.N) % 7 - 3) / 2.0
+                f = b.interpolate(x)
+                return [BilinearForm(form).assemble(b).toarray(), np.asarray(f.value)]
+            glob = d['cls'] in ('ElementTriMorley', 'ElementQuad2G', 'ElementLineHermite', 'ElementTriP1G')
+            fresh = lambda: (CellBasis if kb['bkind'] == 'cell' else FacetBasis)(rebuild(kb['recipe']), build_element(d), intorder=3)  # noqa
+            compare(ctx, 'kept_basis_result', attempt(lambda: val(kb['obj'])), attempt(lambda: val(fresh())),
+                    dict(sig, elem=key(d)), tol=(1e-7 if glob else None))
+            s.reuse += 1
         after()
     elif op == 'mesh_op':
         kinds = ['refined', 'adaptive', 'translated', 'scaled', 'mirrored', 'restrict', 'tagged', 'oriented', 'removed_unused']
@@ -428,9 +479,28 @@ class PoolMachine(HistoryMachine):
     def mapping_again(self, mesh, fn, layout):
         self.do(dict(op='mapping', mesh=mesh, fn=fn, pts=0, layout=layout))
 
-    @rule(mesh=st.integers(0, 3), elem=st.integers(0, 7), pts=st.integers(0, 2), i=st.integers(0, 5))
+    @rule(mesh=st.integers(0, 3), elem=st.integers(0, 7), pts=st.integers(0, 3), i=st.integers(0, 5))
     def lbasis(self, mesh, elem, pts, i):
         self.do(dict(op='lbasis', mesh=mesh, elem=elem, pts=pts, i=i))
+
+    @rule(mesh=st.integers(0, 3), elem=st.integers(0, 7), seq=st.lists(st.integers(0, 3), min_size=3, max_size=3), i=st.integers(0, 5))
+    def lbasis_sequence(self, mesh, elem, seq, i):
+        self.do(dict(op='lbasis', mesh=mesh, elem=elem, pts=seq[0], seq=seq, i=i))
+
+    # a basis object a user keeps (to assemble again later) must keep meaning the same thing whatever else was evaluated meanwhile
+    @rule(mesh=st.integers(0, 3), elem=st.integers(0, 7), basis=st.integers(0, 1))
+    def keep_basis(self, mesh, elem, basis):
+        self.do(dict(op='keep_basis', mesh=mesh, elem=elem, basis=basis))
+
+    @rule(mesh=st.integers(0, 3), elem=st.integers(0, 7), basis=st.integers(0, 1), i=st.integers(0, 5))
+    def keep_evaluate_reuse(self, mesh, elem, basis, i):
+        self.do(dict(op='keep_basis', mesh=mesh, elem=elem, basis=basis))
+        self.do(dict(op='lbasis', mesh=mesh, elem=elem, pts=3, i=i))
+        self.do(dict(op='reuse_basis', mesh=0, basis=2))
+
+    @rule(basis=st.integers(0, 2))
+    def reuse_basis(self, basis):
+        self.do(dict(op='reuse_basis', mesh=0, basis=basis))
 
     @rule(op=st.sampled_from(['assemble', 'assemble', 'interpolate', 'probes']), mesh=INT, elem=INT, basis=INT,
           picks=st.lists(INT, min_size=1, max_size=5))
